@@ -18,6 +18,7 @@ import (
 	"github.com/vektah/gqlparser/v2"
 	"github.com/vektah/gqlparser/v2/ast"
 	"github.com/vektah/gqlparser/v2/formatter"
+	"github.com/vektah/gqlparser/v2/parser"
 )
 
 func init() {
@@ -409,7 +410,18 @@ func runFed(cfg *runCfg, prop string) error {
 			fed.Ctl.Fault = nil
 			nfaults := 0
 			if one.FaultPc > 0 {
-				kinds := []string{FaultTransport, FaultPartial, FaultErrsNull, FaultNodeNull, FaultWrong, FaultErrsNode}
+				kinds := []string{FaultTransport, FaultPartial, FaultErrsNull, FaultNodeNull, FaultWrong, FaultErrsNode, FaultBadElem}
+				// the root lists that dependent steps join onto, per service (for FaultBadElem)
+				fed.Ctl.BadKeys = map[string]string{}
+				if prePlans, perr := fed.Plan(q.Text); perr == nil && one.OpIndex < len(prePlans) {
+					for _, rs := range prePlans[one.OpIndex].RootStep.Then {
+						for _, d := range rs.Then {
+							if len(d.InsertionPoint) > 0 && fed.Ctl.BadKeys[locationOf(rs.Queryer)] == "" {
+								fed.Ctl.BadKeys[locationOf(rs.Queryer)] = d.InsertionPoint[0]
+							}
+						}
+					}
+				}
 				fed.Ctl.Fault = func(c *Call) string {
 					f := faultFor(one.Salt, one.FaultPc, c)
 					if f == "" {
@@ -417,6 +429,9 @@ func runFed(cfg *runCfg, prop string) error {
 					}
 					// spread over all five kinds; the last two only make sense for follow-up fetches
 					k := kinds[int(one.Salt+uint32(len(c.Query)))%len(kinds)]
+					if dep := strings.Contains(c.Query, "$id: ID!") && strings.Contains(c.Query, "node(id: $id)"); k == FaultBadElem && (dep || fed.Ctl.BadKeys[c.Service] == "") {
+						k = FaultTransport
+					}
 					// (a follow-up fetch is known by its text: a client variable that happens to be called id
 					// does not make a root request one)
 					if dep := strings.Contains(c.Query, "$id: ID!") && strings.Contains(c.Query, "node(id: $id)"); !dep && (k == FaultNodeNull || k == FaultWrong || k == FaultErrsNode) {
@@ -567,6 +582,22 @@ func runFed(cfg *runCfg, prop string) error {
 				oracle = fmt.Sprintf("c04_partial_holds exp%d obs%d", id, id)
 			case "C07":
 				oracle = fmt.Sprintf("c07_holds exp%d %d obs%d", id, nfaults, id)
+				// containment at the root: what a root call that did not fail brought is in the response,
+				// whatever happened to the other calls
+				must := []string{}
+				for _, cl := range obs.Calls {
+					if cl.Fault != "" || cl.Invalid != "" || (strings.Contains(cl.Query, "$id: ID!") && strings.Contains(cl.Query, "node(id: $id)")) {
+						continue
+					}
+					if cd, perr := parser.ParseQuery(&ast.Source{Input: cl.Query}); perr == nil && len(cd.Operations) == 1 {
+						for _, sel := range cd.Operations[0].SelectionSet {
+							if f, ok := sel.(*ast.Field); ok && len(f.Directives) == 0 {
+								must = append(must, f.Alias)
+							}
+						}
+					}
+				}
+				oracle += fmt.Sprintf(" && root_keys_kept %s exp%d obs%d", c.Strs(must), id, id)
 			case "C13":
 				single := "false"
 				if len(obs.Calls) > 0 && len(op.SelectionSet) == 1 {
